@@ -118,7 +118,7 @@ def describe(cls, name=None):
     return {
         "name": name or cls.__name__, "role": role, "toks": dna.tokens(st),
         "enz": {"site": dna.enc(s), "off": o, "ovh": k},
-        "sig": [dna.enc(cls.signature[0]), dna.enc(cls.signature[1])] if sigt else [],
+        "sig": [dna.enc(cls.signature[0].upper()), dna.enc(cls.signature[1].upper())] if sigt else [],
         "flank": bool(derived and role == "module"),
         "generic": bool(derived and not sigt),
     }
